@@ -54,6 +54,7 @@ type c15Sess struct {
 	tunSeen    map[*vnNode]int
 	handedToR  map[string]bool // inner packets endpoints handed to R (as strings)
 	nonces     map[string]string
+	rejecting  bool
 	oldInners  map[[2]*vnNode][][]byte
 	sess       int
 	desc       string
@@ -86,6 +87,19 @@ func (s *c15Sess) onUDP(p *vnPacket) {
 	if bytes.Contains(p.Data, c15Marker) {
 		r.Violation("C15/plaintext-on-wire", fmt.Sprintf("%s emitted a datagram to %s that contains a plaintext payload id", p.Sender.Name, p.To),
 			s.rec(map[string]any{"packet": p.String(), "data": verifkit.Hex(p.Data)}))
+	}
+	if !s.hostile && p.HOK && p.H.Type == header.Message && p.H.Subtype == header.MessageNone && p.Sender != s.R && p.To == s.R.Addr {
+		// honest phase (in the compromised-relay phase the relay itself sends packets that endpoints legitimately answer on its
+		// tunnel): a data packet an endpoint seals for the relay itself, opened with the relay's own key, must be addressed to the relay
+		if hi := s.R.F.hostMap.QueryIndex(p.H.RemoteIndex); hi != nil && hi.ConnectionState != nil && len(p.Data) > header.Len+16 {
+			if plain, err := hi.ConnectionState.dKey.DecryptDanger(nil, p.Data[:header.Len], p.Data[header.Len:], p.H.MessageCounter, make([]byte, 12)); err == nil && len(plain) >= 20 && plain[0]>>4 == 4 {
+				r.Count("direct_packets_to_the_relay_opened", 1)
+				if dst := netip.AddrFrom4([4]byte(plain[16:20])); dst != s.R.Ident.Addr() {
+					r.Violation("C15/endpoint-traffic-sealed-under-relay-key", fmt.Sprintf("%s sealed a packet for %s under its tunnel key with the relay and sent it to the relay", p.Sender.Name, dst),
+						s.rec(map[string]any{"packet": p.String(), "plaintext": verifkit.Hex(plain)}))
+				}
+			}
+		}
 	}
 	if !p.HOK || p.H.Type != header.Message || p.H.Subtype != header.MessageRelay || len(p.Data) < header.Len*2+16 {
 		return
@@ -144,6 +158,11 @@ func (s *c15Sess) onUDP(p *vnPacket) {
 		r.Violation("C15/inner-not-under-endpoint-key", fmt.Sprintf("data from %s handed to the relay does not open under any destination endpoint's tunnel key for that sender", p.Sender.Name), s.rec(map[string]any{"packet": p.String()}))
 		return
 	}
+	if rf, rt, isRej := c15Reject(plain); isRej && s.rejecting && p.Sender == s.B && rf == s.B.Ident.Addr() && rt == dst.Ident.Addr() {
+		r.Count("reject_replies_seen_end_to_end_encrypted", 1)
+		s.tryRelayKeys(p, inner, ih, dst.Name)
+		return
+	}
 	id, ok := vnPayloadID(plain)
 	sr, known := s.sent[id]
 	if !ok || !known || sr.from != p.Sender || sr.to != dst || !bytes.Equal(sr.bytes, plain) {
@@ -180,6 +199,17 @@ func (s *c15Sess) tryRelayKeys(p *vnPacket, inner []byte, ih header.H, dst strin
 	}
 }
 
+// c15Reject recognises the reject B answers a denied packet with (ICMP destination unreachable quoting the IP and UDP
+// header of the packet): returns the overlay address it comes from and the one it is for.
+func c15Reject(pkt []byte) (from, to netip.Addr, ok bool) {
+	if len(pkt) < 28+28 || pkt[0]>>4 != 4 || pkt[9] != 1 || pkt[20] != 3 || pkt[28]>>4 != 4 {
+		return
+	}
+	from, to = netip.AddrFrom4([4]byte(pkt[12:16])), netip.AddrFrom4([4]byte(pkt[16:20]))
+	qsrc, qdst := netip.AddrFrom4([4]byte(pkt[40:44])), netip.AddrFrom4([4]byte(pkt[44:48]))
+	return from, to, qsrc == to && qdst == from
+}
+
 // judgeTun looks at everything that newly reached any tun. allowed lists the ids that may legitimately appear now.
 func (s *c15Sess) judgeTun(step string, allowed map[[16]byte]bool) (got [][16]byte) {
 	r := s.r
@@ -188,6 +218,15 @@ func (s *c15Sess) judgeTun(step string, allowed map[[16]byte]bool) (got [][16]by
 			pkt := n.TunOut[s.tunSeen[n]]
 			id, ok := vnPayloadID(pkt)
 			wit := s.rec(map[string]any{"step": step, "node": n.Name, "packet": verifkit.Hex(pkt)})
+			if rf, rt, isRej := c15Reject(pkt); !ok && isRej {
+				// only the endpoint that rejects sends these, to the endpoint whose packet it denied
+				if s.rejecting && rf == s.B.Ident.Addr() && rt == n.Ident.Addr() && n != s.R {
+					r.Count("reject_replies_delivered_end_to_end", 1)
+				} else {
+					r.Violation("C15/unknown-packet-delivered", fmt.Sprintf("%s: %s's tun output a reject from %s for %s that no endpoint here would send", step, n.Name, rf, rt), wit)
+				}
+				continue
+			}
 			if n == s.R && ok {
 				if sr, known := s.sent[id]; !known || sr.to != s.R {
 					r.Violation("C15/relay-holds-plaintext", fmt.Sprintf("%s: the relay's tun output an endpoint packet", step), wit)
@@ -369,11 +408,19 @@ func TestVerifC15(t *testing.T) {
 				extra["firewall"] = m{"conntrack": m{"routine_cache_timeout": "1h"}}
 			}
 			use := vnMerge(m{"relay": m{"use_relays": true}}, extra)
-			s := &c15Sess{r: r, nw: nw, sess: sess, desc: fmt.Sprintf("cert v%d curve=%v cipher=%s routine-cache=%v", ver, curve, cipher, sess/8%2 == 1),
+			s := &c15Sess{r: r, nw: nw, sess: sess, desc: fmt.Sprintf("cert v%d curve=%v cipher=%s routine-cache=%v b-rejects=%v", ver, curve, cipher, sess/8%2 == 1, sess/16%2 == 1),
 				sent: map[[16]byte]c15Sent{}, delivered: map[[16]byte]int{}, tunSeen: map[*vnNode]int{}, handedToR: map[string]bool{}, nonces: map[string]string{}, oldInners: map[[2]*vnNode][][]byte{}}
 			s.A = nw.AddNode(ca.issue(vs, "a", "10.1.0.1/16", "", nil), []*vnCA{ca}, "192.0.2.1:4242", use)
 			s.C = nw.AddNode(ca.issue(vs, "c", "10.1.0.3/16", "", nil), []*vnCA{ca}, "192.0.2.3:4242", use)
-			s.B = nw.AddNode(ca.issue(vs, "b", "10.1.0.2/16", "", nil), []*vnCA{ca}, "192.0.2.2:4242", use)
+			rejecting := sess/16%2 == 1
+			useB := use
+			if rejecting {
+				// B answers what its inbound rules deny with a reject (ICMP unreachable quoting the packet): that answer is
+				// end-to-end traffic too
+				useB = vnMerge(use, m{"firewall": m{"inbound_action": "reject", "inbound": []m{{"proto": "udp", "port": 80, "host": "any"}, {"proto": "icmp", "port": "any", "host": "any"}}}})
+			}
+			s.rejecting = rejecting
+			s.B = nw.AddNode(ca.issue(vs, "b", "10.1.0.2/16", "", nil), []*vnCA{ca}, "192.0.2.2:4242", useB)
 			s.R = nw.AddNode(ca.issue(vs, "r", "10.1.0.128/16", "", nil), []*vnCA{ca}, "192.0.2.128:4242", vnMerge(m{"relay": m{"am_relay": true}}, extra))
 			// what a lighthouse would tell them (closing the last tunnel to a peer forgets it, so this is repeated after churn)
 			learn := func() {
@@ -424,6 +471,21 @@ func TestVerifC15(t *testing.T) {
 					r.Count("honest_superpacket_segments_delivered", len(got))
 					r.Count("honest_superpacket_segments_missing", len(segs)-len(got))
 					r.DistinctClass(fmt.Sprintf("honest superpacket %s->%s segments=%d all-delivered=%v", pr[0].Name, pr[1].Name, len(segs), len(got) == len(segs)))
+					continue
+				}
+				if s.rejecting && pr[1] == s.B && rng.IntN(3) == 0 {
+					// a packet B's inbound rules deny: nothing is delivered at B, B's reject travels back end to end
+					pkt, id := vnUDP4(pr[0].Ident.Addr(), s.B.Ident.Addr(), 4000, 81, rng.IntN(300))
+					s.sent[id] = c15Sent{from: pr[0], to: s.B, bytes: pkt}
+					nw.TunSend(pr[0], pkt)
+					nw.Flush()
+					got := s.judgeTun("honest denied packet", map[[16]byte]bool{})
+					r.Eval(1)
+					r.Count("honest_denied_packets", 1)
+					if len(got) != 0 {
+						r.Count("honest_denied_packets_delivered(not this property)", 1)
+					}
+					r.DistinctClass(fmt.Sprintf("honest denied %s->b", pr[0].Name))
 					continue
 				}
 				id := s.send(pr[0], pr[1], rng.IntN(900))
